@@ -25,6 +25,14 @@ def build_args(inp):
         for k, (v, typ) in inp['L']:
             vals = list(LABELS[v])
             L[name(k)] = set(vals) if typ == 'set' else (tuple(vals) if typ == 'tuple' else vals)
+    if L is not None and inp.get('ltype'):
+        import collections
+        if inp['ltype'] == 'ordered':
+            L = collections.OrderedDict(sorted(L.items(), key=lambda kv: repr(kv[0]), reverse=True))
+        elif inp['ltype'] == 'default':
+            d = collections.defaultdict(set)
+            d.update(L)
+            L = d
     ct = inp.get('ctype', 'list')
     if ct == 'set':
         S = None if S is None else set(S)
@@ -103,6 +111,10 @@ def check_kripke(inp):
             return f
         for s in nodes:
             K.labels(s).discard('mut-orig')
+        # a clone of a clone is still a faithful, independent copy
+        f = _inspect(inp, K.clone().clone(), nodes, set(R), expL, expS0, 'clone of a clone')
+        if f is not None:
+            return f
         # substructures
         universe = sorted(nodes, key=repr) + [OUT + '?']
         Vs = inp.get('V')
@@ -173,6 +185,14 @@ def _check_sub(inp, K, V, nodes, R, L, S0):
     for s in keep:
         if sub.labels(s) is K.labels(s):
             return Failure('kripke', rec, 'substructure shares no label set', 'labels(%r) shared' % (s,))
+    # a substructure of the substructure (same V): identical again
+    try:
+        sub2 = sub.get_substructure(set(keep))
+    except RuntimeError:
+        return Failure('kripke', rec, 'substructure of a substructure exists', 'RuntimeError')
+    f = _inspect(rec, sub2, keep, indR, dict((s, L[s]) for s in keep), S0 & keep, 'substructure of the substructure')
+    if f is not None:
+        return f
     # the original is untouched
     return _inspect(rec, K, nodes, R, L, S0, 'original after get_substructure')
 
@@ -205,7 +225,8 @@ def case_iter(n):
                         continue        # halve the n=3 product deterministically
                     yield {'n': n, 'S': S, 'S0': S0, 'R': [list(e) for e in R], 'L': Lc,
                            'naming': ('int', 'str', 'tuple', 'mixed', 'revint', 'opaque')[(mask + si) % 6],
-                           'ctype': ('list', 'set', 'tuple')[(mask + zi) % 3]}
+                           'ctype': ('list', 'set', 'tuple')[(mask + zi) % 3],
+                           'ltype': (None, 'ordered', 'default')[(mask + li + si) % 3]}
 
 
 def is_nontrivial(inp):
@@ -272,7 +293,7 @@ def random_shard(st, shard, nshards, payload):
     from hypothesis import strategies as hs
     @hs.composite
     def cases(draw):
-        n = draw(hs.integers(4, 5))
+        n = draw(hs.integers(4, 7))
         uni = list(range(n))
         R = []
         for a in uni:
@@ -287,7 +308,8 @@ def random_shard(st, shard, nshards, payload):
         V = draw(hs.lists(hs.sampled_from(uni + ['out?']), unique=True))
         return {'n': n, 'S': S, 'S0': S0, 'R': R, 'L': draw(hs.sampled_from([None, L, L, L])),
                 'naming': draw(hs.sampled_from(['int', 'str', 'tuple', 'mixed', 'revint', 'opaque'])),
-                'ctype': draw(hs.sampled_from(['list', 'set', 'tuple'])), 'V': V}
+                'ctype': draw(hs.sampled_from(['list', 'set', 'tuple'])), 'V': V,
+                'ltype': draw(hs.sampled_from([None, 'ordered', 'default']))}
 
 
     def body(inp):
